@@ -1,5 +1,5 @@
 import ApolloModel.Proofs.ParserLossless
-import ApolloModel.Proofs.ParserTermination2
+import ApolloModel.Proofs.ParserTermination3
 /-
 C01 — Parsing never panics, hangs or overflows the stack.
 
@@ -102,14 +102,23 @@ theorem node_bump_and_name_consume (kind k : Rowan.SK) (s : PState) (hw : W s) :
     Term name s (fun _ c l => ∀ t, s.current = some t → t.kind = .name → StrictT s c l) :=
   ⟨withNode_bump_term kind k s hw, name_term s hw⟩
 
+/-- value.rs: the mutually recursive value grammar (`value` → `list_value` / `object_value` →
+    `object_field` → `value`, unbounded nesting, const and non-const, with and without
+    `pop_on_error`) terminates whenever the fuel is at least `2·Mm + 2` (`2·Mm + 1` for the three
+    inner functions): both loops (`peek_while` in list_value, `peek_while_kind(Name)` in object_value)
+    are instances of the loop theorems — their bodies consume a token under the guard — and every
+    recursive call follows a consumed token.  With `pop_on_error`, `value` always consumes the token it
+    looks at (what the list loop needs); `object_field` consumes its Name. -/
+theorem value_grammar_terminates (n : Nat) : ValueGoal n := value_family n
+
 /-- PARTIAL of `parse_terminates_statement` — the entry point `Parser::parse_type`, for every input,
     token limit and recursion limit: never out of fuel, never stuck.  Remaining obligations for the
-    other two entry points: a `Term` lemma per grammar function of value.rs, selection.rs/field.rs/
+    other two entry points: a `Term` lemma per grammar function of selection.rs/field.rs/
     fragment.rs, and the definition parsers dispatched by document.rs — each is an instance of
     `peek_while_terminates` / `peek_while_kind_terminates` once its loop bodies are shown to consume a
     token under the loop guard (the guards are token kinds, and every body starts by bumping or by
     `name`/`expect` on that kind), plus the depth bound `4·|src|+20 ≥ 4·Mm + rank` for the mutual
-    recursions value→list/object→value and selectionSet→selection→field→selectionSet. -/
+    recursion selectionSet→selection→field→selectionSet (value.rs is done: `value_grammar_terminates`). -/
 theorem parse_terminates_partial (tl : Option Nat) (rl : Nat) (src : Parse.Str) (w : Abort) :
     (parse .type tl rl src).outcome ≠ .abort w := parse_type_terminates tl rl src w
 
